@@ -309,3 +309,381 @@ RECIPES += [
     ("C10", "neutral", [], FDE, "        G1 = Amax**2 / (Q * pi * freq * lnN0)", "        G1 = np.square(Amax) / Q / pi / freq / lnN0", "G1 with np.square and chained divisions"),
     ("C10", "neutral", [], FDE, "            k = np.argmax(tantheta)\n            if tantheta[k] > 0:", "            k = int(tantheta.argmax())\n            if tantheta.max() > 0:", "argmax as a method, the test on max()"),
 ]
+
+
+# ---- fourth pass: refactorings of further kinds (array-API spellings, vectorised row sums, copies updated in place, out= stores, counted while loops,
+# callables through locals / partial / operator tables / nested functions, regime tables, string formatting, loop-filled masks) - every neutral text was
+# verified in a scratch copy of the repository (pyyeti tests + 432 differential cases against the unchanged tree) - and broken siblings of the same constructs
+RECIPES += [
+    # -------------------------------------------------------------------------------------------------------------- neutral
+    ("C10", "neutral", [], FDE, '    for j in range(LF):\n        Df4[j] = (BinAmps[j] ** b4).dot(BinCount[j])\n        Df8[j] = (BinAmps[j] ** b8).dot(BinCount[j])\n        Df12[j] = (BinAmps[j] ** b12).dot(BinCount[j])\n',
+     '    Df4[:] = np.sum(BinAmps**b4 * BinCount, axis=1)\n    Df8[:] = (BinAmps**b8 * BinCount).sum(axis=1)\n    Df12[:] = np.einsum("ij,ij->i", BinAmps**b12, BinCount)\n',
+     'damage indicators as whole-array row sums stored with [:] (np.sum axis=1, .sum(axis=1), einsum)'),
+    ("C10", "neutral", [], FDE, '    Df4 = np.zeros(LF)\n    Df8 = np.zeros(LF)\n    Df12 = np.zeros(LF)\n    for j in range(LF):\n        Df4[j] = (BinAmps[j] ** b4).dot(BinCount[j])\n        Df8[j] = (BinAmps[j] ** b8).dot(BinCount[j])\n        Df12[j] = (BinAmps[j] ** b12).dot(BinCount[j])\n',
+     '    Df4 = np.sum(BinAmps**b4 * BinCount, axis=1)\n    Df8 = (BinAmps**b8 * BinCount).sum(axis=-1)\n    Df12 = np.sum(BinCount * BinAmps**b12, 1)\n',
+     'damage indicators as row sums bound directly (axis=1, axis=-1, positional axis)'),
+    ("C10", "neutral", [], FDE, '    Df4 = np.zeros(LF)\n    Df8 = np.zeros(LF)\n    Df12 = np.zeros(LF)\n    for j in range(LF):\n        Df4[j] = (BinAmps[j] ** b4).dot(BinCount[j])\n        Df8[j] = (BinAmps[j] ** b8).dot(BinCount[j])\n        Df12[j] = (BinAmps[j] ** b12).dot(BinCount[j])\n',
+     '    Df = {b: np.zeros(LF) for b in (b4, b8, b12)}\n    for j in range(LF):\n        for b, arr in Df.items():\n            arr[j] = (BinAmps[j] ** b).dot(BinCount[j])\n    Df4, Df8, Df12 = Df[b4], Df[b8], Df[b12]\n',
+     'damage-indicator arrays kept in a dict keyed by the exponent and filled through .items()'),
+    ("C10", "neutral", [], FDE, '    for j in range(LF):\n        Df4[j] = (BinAmps[j] ** b4).dot(BinCount[j])\n        Df8[j] = (BinAmps[j] ** b8).dot(BinCount[j])\n        Df12[j] = (BinAmps[j] ** b12).dot(BinCount[j])\n',
+     '    for j, (amps, cnts) in enumerate(zip(BinAmps, BinCount)):\n        Df4[j] = np.dot(amps**b4, cnts)\n        Df8[j] = np.sum(amps**b8 * cnts)\n        Df12[j] = (cnts * amps**b12).sum()\n',
+     'damage indicators from zipped rows with np.dot / np.sum of the product / .sum()'),
+    ("C10", "neutral", [], FDE, '    for j in range(LF):\n        Df4[j] = (BinAmps[j] ** b4).dot(BinCount[j])\n        Df8[j] = (BinAmps[j] ** b8).dot(BinCount[j])\n        Df12[j] = (BinAmps[j] ** b12).dot(BinCount[j])\n',
+     '    for j in range(LF):\n        Df4[j] = BinAmps[j] ** b4 @ BinCount[j]\n        Df8[j] = BinCount[j] @ BinAmps[j] ** b8\n        Df12[j] = np.inner(BinAmps[j] ** b12, BinCount[j])\n',
+     'damage indicators with @ and np.inner'),
+    ("C10", "neutral", [], FDE, 'BinCount = np.hstack((Count[:, :-1] - Count[:, 1:], Count[:, -1:]))',
+     'BinCount = np.hstack((-np.diff(Count, axis=1), Count[:, -1:]))',
+     'BinCount from -np.diff(Count, axis=1)'),
+    ("C10", "neutral", [], FDE, 'BinCount = np.hstack((Count[:, :-1] - Count[:, 1:], Count[:, -1:]))',
+     'BinCount = np.column_stack((Count[:, :-1] - Count[:, 1:], Count[:, -1]))',
+     'BinCount by np.column_stack with the last column as a 1-D piece'),
+    ("C10", "neutral", [], FDE, 'BinCount = np.hstack((Count[:, :-1] - Count[:, 1:], Count[:, -1:]))',
+     'BinCount = np.c_[Count[:, :-1] - Count[:, 1:], Count[:, -1]]',
+     'BinCount by np.c_'),
+    ("C10", "neutral", [], FDE, 'BinCount = np.hstack((Count[:, :-1] - Count[:, 1:], Count[:, -1:]))',
+     'BinCount = np.append(Count[:, :-1] - Count[:, 1:], Count[:, -1:], axis=1)',
+     'BinCount by np.append(..., axis=1)'),
+    ("C10", "neutral", [], FDE, 'BinCount = np.hstack((Count[:, :-1] - Count[:, 1:], Count[:, -1:]))',
+     'BinCount = np.hstack((np.subtract(Count[:, :-1], Count[:, 1:]), Count[:, [-1]]))',
+     'BinCount with np.subtract and a list index for the last column'),
+    ("C10", "neutral", [], FDE, '            rf = cyclecount.rainflow(resphist[ind])\n\n            amp = rf["amp"]\n            count = rf["count"]\n',
+     '            rf = cyclecount.rainflow(resphist[ind], use_pandas=False)\n\n            amp = rf[:, 0]\n            count = rf[:, 2]\n',
+     'cycle table requested as an ndarray, columns by position'),
+    ("C10", "neutral", [], FDE, '            amp = rf["amp"]\n            count = rf["count"]\n            Amax[j] = amp.max()',
+     '            amp = rf.amp\n            count = rf["count"]\n            Amax[j] = amp.max()',
+     'amplitude column by attribute access'),
+    ("C10", "neutral", [], FDE, '            amp = rf["amp"]\n            count = rf["count"]\n            Amax[j] = amp.max()',
+     '            amp = rf["amp"].values\n            count = rf["count"].to_numpy()\n            Amax[j] = amp.max()',
+     'columns through .values / .to_numpy()'),
+    ("C10", "neutral", [], FDE, '            amp = rf["amp"]\n            count = rf["count"]\n            Amax[j] = amp.max()',
+     '            amp = rf.loc[:, "amp"]\n            count = rf.iloc[:, 2]\n            Amax[j] = amp.max()',
+     'columns through .loc / .iloc'),
+    ("C10", "neutral", [], FDE, '                pv = amp >= BinAmps[j, jj]\n                Count[j, jj] = np.sum(count[pv])',
+     '                Count[j, jj] = np.where(amp >= BinAmps[j, jj], count, 0).sum()',
+     'cumulative count as the sum of np.where(mask, count, 0)'),
+    ("C10", "neutral", [], FDE, '                pv = amp >= BinAmps[j, jj]\n                Count[j, jj] = np.sum(count[pv])',
+     '                pv = ~(amp < BinAmps[j, jj])\n                Count[j, jj] = count[pv].sum()',
+     'cumulative-count mask as the complement of amp < level'),
+    ("C10", "neutral", [], FDE, '                pv = amp >= BinAmps[j, jj]\n                Count[j, jj] = np.sum(count[pv])',
+     '                Count[j, jj] = np.sum(count[BinAmps[j, jj] <= amp])',
+     'cumulative-count mask with swapped operands, no temporary'),
+    ("C10", "neutral", [], FDE, '                pv = amp >= BinAmps[j, jj]\n                Count[j, jj] = np.sum(count[pv])',
+     '                pv = np.greater_equal(amp, BinAmps[j, jj])\n                Count[j, jj] = np.sum(count[pv])',
+     'cumulative-count mask by np.greater_equal'),
+    ("C10", "neutral", [], FDE, '    if resp == "absacce":\n        G1 =',
+     '    acce = {"absacce": True, "pvelo": False}[resp]\n    if acce:\n        G1 =',
+     'response regime through a literal truth table'),
+    ("C10", "neutral", [], FDE, '    if resp == "absacce":\n        G1 =',
+     '    if resp in ("absacce",):\n        G1 =',
+     'response regime tested with `in`'),
+    ("C10", "neutral", [], FDE, '    if resp == "absacce":\n        G1 =',
+     '    if resp[0] == "a":\n        G1 =',
+     'response regime tested on the first character'),
+    ("C10", "neutral", [], FDE, '        sig2_8 = (Df8 / Dt8) ** (1 / 4)\n        G8 = sig2_8 / (',
+     '        sig2_8 = np.sqrt(np.sqrt(Df8 / Dt8))\n        G8 = sig2_8 / (',
+     'fourth root as sqrt of sqrt'),
+    ("C10", "neutral", [], FDE, '        sig2_12 = (Df12 / Dt12) ** (1 / 6)\n        G12 = sig2_12 / (',
+     '        sig2_12 = np.power(Df12 / Dt12, 1.0 / 6.0)\n        G12 = sig2_12 / (',
+     'sixth root by np.power with float literals'),
+    ("C10", "neutral", [], FDE, '        G4 = sig2_4 / ((Q * pi / 2) * freq)\n',
+     '        G4 = sig2_4 / (Q * pi * freq / 2)\n',
+     'G4 denominator re-associated'),
+    ("C10", "neutral", [], FDE, '        G1 = Amax**2 / (Q * pi * freq * lnN0)\n        G2 = G2max / (Q * pi * freq * lnN0)\n',
+     '        fac = 1.0 / (Q * pi * freq * lnN0)\n        G1, G2 = (fac * x for x in (Amax**2, G2max))\n',
+     'G1 and G2 from one hoisted factor through a generator over a literal tuple'),
+    ("C10", "neutral", [], FDE, '        Dt4 = N0 * 8 - (Abar2 + 4 * Abar + 8)\n',
+     '        Dt4 = N0 * 8 - np.polyval([1, 4, 8], Abar)\n',
+     'Dt4 polynomial by np.polyval'),
+    ("C10", "neutral", [], FDE, '    lcls = locals()\n    dct = {k: lcls[k] for k in columns}\n',
+     '    dct = dict(zip(columns, (G1, G2, G4, G8, G12)))\n',
+     'psd table from dict(zip(labels, columns))'),
+    ("C10", "neutral", [], FDE, '    lcls = locals()\n    dct = {k: lcls[k] for k in columns}\n    Gpsd = pd.DataFrame(dct, columns=columns, index=freq)',
+     '    Gpsd = pd.DataFrame(np.column_stack((G1, G2, G4, G8, G12)), columns=columns, index=freq)',
+     'psd table from np.column_stack with the label list'),
+    ("C10", "neutral", [], FDE, '    di_sig = pd.DataFrame(\n        np.column_stack((Df4, Df8, Df12)), columns=["b=4", "b=8", "b=12"], index=index\n    )',
+     '    di_sig = pd.DataFrame({"b=4": Df4, "b=8": Df8, "b=12": Df12}, index=index)',
+     'di_sig from a dict of labelled columns'),
+    ("C10", "neutral", [], FDE, '    di_sig = pd.DataFrame(\n        np.column_stack((Df4, Df8, Df12)), columns=["b=4", "b=8", "b=12"], index=index\n    )',
+     '    di_sig = pd.DataFrame(\n        np.vstack((Df4, Df8, Df12)).T, columns=[f"b={b}" for b in (b4, b8, b12)], index=index\n    )',
+     'di_sig labels from an f-string over the exponents, data by vstack(...).T'),
+    ("C10", "neutral", [], FDE, '        BinAmps = np.zeros((LF, nbins))\n        BinAmps += np.arange(nbins, dtype=float) / nbins\n',
+     '        BinAmps = np.tile(np.arange(nbins, dtype=float) / nbins, (LF, 1))\n',
+     'unit levels by np.tile'),
+    ("C10", "neutral", [], FDE, '        BinAmps = np.zeros((LF, nbins))\n        BinAmps += np.arange(nbins, dtype=float) / nbins\n',
+     '        BinAmps = np.ones((LF, 1)) * (np.arange(nbins, dtype=float) / nbins)\n',
+     'unit levels by broadcasting against np.ones((LF, 1))'),
+    ("C10", "neutral", [], FDE, '            BinAmps[j] *= Amax[j]\n',
+     '            BinAmps[j] = BinAmps[j] * Amax[j]\n',
+     'row of levels scaled by a plain assignment'),
+    ("C10", "neutral", [], FDE, '            BinAmps[j] *= Amax[j]\n',
+     '            np.multiply(BinAmps[j], Amax[j], out=BinAmps[j])\n',
+     'row of levels scaled by np.multiply(..., out=row view)'),
+    ("C10", "neutral", [], FDE, '        pv = BinAmps[j] >= Amax[j] / 3  # ignore small amp cycles\n',
+     '        pv = 3 * BinAmps[j] >= Amax[j]  # ignore small amp cycles\n',
+     'small-cycle cut-off multiplied out'),
+    ("C10", "neutral", [], FDE, '            SRSmax[j] = abs(resphist).max()\n',
+     '            SRSmax[j] = np.max(np.fabs(resphist))\n',
+     'SRS value with np.max(np.fabs(.))'),
+    ("C10", "neutral", [], FDE, '            SRSmax[j] = abs(resphist).max()\n',
+     '            SRSmax[j] = max(resphist.max(), -resphist.min())\n',
+     'SRS value as max(R.max(), -R.min())'),
+    ("C10", "neutral", [], CYC, '                if mn <= bb[0] or mx > bb[-1]:\n                    out_of_bounds = True\n                else:\n                    out_of_bounds = False\n            else:\n                if mn < bb[0] or mx >= bb[-1]:\n                    out_of_bounds = True\n                else:\n                    out_of_bounds = False',
+     '                out_of_bounds = not (bb[0] < mn and mx <= bb[-1])\n            else:\n                out_of_bounds = not (bb[0] <= mn and mx < bb[-1])',
+     'verdict as negated containment'),
+    ("C10", "neutral", [], CYC, '                if mn <= bb[0] or mx > bb[-1]:\n                    out_of_bounds = True\n                else:\n                    out_of_bounds = False\n            else:\n                if mn < bb[0] or mx >= bb[-1]:\n                    out_of_bounds = True\n                else:\n                    out_of_bounds = False',
+     '                out_of_bounds = not (bb[0] < mn <= mx <= bb[-1])\n            else:\n                out_of_bounds = not (bb[0] <= mn <= mx < bb[-1])',
+     'verdict as negated chained comparison'),
+    ("C10", "neutral", [], CYC, '                if mn <= bb[0] or mx > bb[-1]:\n                    out_of_bounds = True',
+     '                if np.less_equal(mn, bb[0]) or np.greater(mx, bb[-1]):\n                    out_of_bounds = True',
+     'verdict with np.less_equal / np.greater'),
+    ("C10", "neutral", [], CYC, '                if mn <= bb[0] or mx > bb[-1]:\n                    out_of_bounds = True\n                else:\n                    out_of_bounds = False\n            else:\n                if mn < bb[0] or mx >= bb[-1]:\n                    out_of_bounds = True\n                else:\n                    out_of_bounds = False',
+     '                below, above = (lambda v: v <= bb[0]), (lambda v: v > bb[-1])\n            else:\n                below, above = (lambda v: v < bb[0]), (lambda v: v >= bb[-1])\n            out_of_bounds = bool(below(mn) or above(mx))',
+     'verdict through per-side lambdas chosen by `right`'),
+    ("C10", "neutral", [], CYC, '        if right:\n            bb[0] -= p\n        else:\n            bb[-1] += p\n        out_of_bounds = False',
+     '        k, sgn = (0, -1) if right else (-1, 1)\n        bb[k] += sgn * p\n        out_of_bounds = False',
+     'scalar bins: moved edge chosen by a (index, sign) pair'),
+    ("C10", "neutral", [], CYC, '        if right:\n            bb[0] -= p\n        else:\n            bb[-1] += p\n        out_of_bounds = False',
+     '        if right:\n            bb[0] = bb[0] - p\n        else:\n            bb[len(bb) - 1] = bb[-1] + p\n        out_of_bounds = False',
+     'scalar bins: moved edge by plain assignment, last edge as len(bb) - 1'),
+    ("C10", "neutral", [], CYC, '        for i in range(len(cycles)):\n            bim = bin_indices_mean[i]\n            bir = bin_indices_range[i]\n            if (0 <= bim < num_bins_mean) and (0 <= bir < num_bins_range):\n                markov_matrix[bim, bir] += cycles[i, 2]',
+     '        for cyc, bim, bir in zip(cycles, bin_indices_mean, bin_indices_range):\n            if not (0 <= bim < num_bins_mean and 0 <= bir < num_bins_range):\n                continue\n            markov_matrix[bim, bir] = markov_matrix[bim, bir] + cyc[2]',
+     'guarded arm as a zip loop with an early continue and a non-augmented store'),
+    ("C10", "neutral", [], CYC, '            if (0 <= bim < num_bins_mean) and (0 <= bir < num_bins_range):\n',
+     '            if min(bim, bir) >= 0 and bim < num_bins_mean and bir < num_bins_range:\n',
+     'index guard with min(bim, bir) >= 0'),
+    ("C10", "neutral", [], CYC, '            if (0 <= bim < num_bins_mean) and (0 <= bir < num_bins_range):\n',
+     '            if (0 <= bim < markov_matrix.shape[0]) and (0 <= bir < markov_matrix.shape[1]):\n',
+     "index guard against the allocated table's shape"),
+    ("C10", "neutral", [], CYC, '        for i in range(len(cycles)):\n            markov_matrix[bin_indices_mean[i], bin_indices_range[i]] += cycles[i, 2]',
+     '        i = 0\n        while i < len(cycles):\n            markov_matrix[bin_indices_mean[i], bin_indices_range[i]] += cycles[i, 2]\n            i += 1',
+     'unguarded arm as a counted while loop'),
+    ("C10", "neutral", [], CYC, '    bin_indices_range = np.digitize(cycles[:, 0], bins_range, right=right) - 1\n    bin_indices_mean = np.digitize(cycles[:, 1], bins_mean, right=right) - 1\n',
+     '    bin_indices_range = np.digitize(cycles[:, 0], bins_range, right)\n    bin_indices_range -= 1\n    bin_indices_mean = np.subtract(np.digitize(cycles[:, 1], bins_mean, right), 1)\n',
+     'bin indices: positional `right`, in-place -= 1 and np.subtract'),
+    ("C10", "neutral", [], CYC, '        out = out_amp or out_ave\n',
+     '        out = any((out_amp, out_ave))\n',
+     'guard flag by any((a, b))'),
+    ("C10", "neutral", [], CYC, '    ampb = getbins(ampbins, *maxmin(rf[:, 0]), right, check_bounds)\n    aveb = getbins(meanbins, *maxmin(rf[:, 1]), right, check_bounds)\n\n    if check_bounds:\n        ampb, out_amp = ampb\n        aveb, out_ave = aveb\n        out = out_amp or out_ave\n    else:\n        out = False\n',
+     '    amx, amn = maxmin(rf[:, 0])\n    vmx, vmn = maxmin(rf[:, 1])\n    if check_bounds:\n        ampb, out_amp = getbins(ampbins, amx, amn, right, True)\n        aveb, out_ave = getbins(meanbins, vmx, vmn, right, True)\n        out = bool(out_amp or out_ave)\n    else:\n        ampb = getbins(ampbins, amx, amn, right)\n        aveb = getbins(meanbins, vmx, vmn, right)\n        out = False\n',
+     'getbins called per check_bounds regime with explicit unpacking and a literal flag'),
+    ("C10", "neutral", [], CYC, '        index = _getlabels(form, aveb)\n        columns = _getlabels(form, ampb)\n',
+     '        index = [form.format(lo, hi) for lo, hi in zip(aveb, aveb[1:])]\n        columns = list(map(form.format, ampb[:-1], ampb[1:]))\n',
+     'labels by a comprehension over zip(b, b[1:]) and by map(form.format, ...)'),
+    ("C10", "neutral", [], CYC, '        f = "{:." + str(precision) + "f}"\n        f = f + ", " + f\n',
+     '        f = "{:.%df}" % precision\n        f = ", ".join((f, f))\n',
+     'label format by % formatting and str.join'),
+    ("C10", "neutral", [], CYC, '    rf = rainflow(sig[findap(sig)], use_pandas=False)\n',
+     '    peaks = findap(sig)\n    rf = rainflow(sig[peaks], getoffsets=False, use_pandas=False)\n',
+     'sigcount with a named temporary and explicit keywords'),
+    ("C10", "neutral", [], LOC, '    pv = np.hstack((True, abs(m) > stol))\n',
+     '    pv = np.r_[True, abs(m) > stol]\n',
+     'mask by np.r_'),
+    ("C10", "neutral", [], LOC, '    pv = np.hstack((True, abs(m) > stol))\n',
+     '    pv = np.append(True, abs(m) > stol)\n',
+     'mask by np.append'),
+    ("C10", "neutral", [], LOC, '    pv = np.hstack((True, abs(m) > stol))\n',
+     '    pv = np.insert(abs(m) > stol, 0, True)\n',
+     'mask by np.insert(..., 0, True)'),
+    ("C10", "neutral", [], LOC, '    pv = np.hstack((True, abs(m) > stol))\n',
+     '    pv = np.hstack((True, np.greater(np.fabs(m), stol)))\n',
+     'mask by np.greater(np.fabs(.), tol)'),
+    ("C10", "neutral", [], LOC, '    pv = np.hstack((True, abs(m) > stol))\n',
+     '    pv = np.ones(len(y), bool)\n    for k in range(1, len(y)):\n        pv[k] = abs(y[k] - y[k - 1]) > stol\n',
+     'mask allocated all True and filled by a loop over k = 1 .. n-1'),
+    ("C10", "neutral", [], LOC, '    stol = abs(tol * abs(m).max())\n',
+     '    biggest = np.abs(m).max()\n    stol = abs(tol) * biggest\n',
+     'tolerance as abs(tol) * largest difference, named temporary'),
+    ("C10", "neutral", [], LOC, '    stol = abs(tol * abs(m).max())\n',
+     '    stol = abs(tol * max(m.max(), -m.min()))\n',
+     'largest difference as max(m.max(), -m.min())'),
+    ("C10", "neutral", [], CYC, '        PV = np.zeros(y.size, bool)  # non-uniques are not peaks\n        PV[u] = pv\n',
+     '        PV = np.zeros(y.size, bool)  # non-uniques are not peaks\n        PV[np.nonzero(u)[0]] = pv\n',
+     'expansion stored at np.nonzero(u)[0]'),
+    ("C10", "neutral", [], CYC, '        PV = np.zeros(y.size, bool)  # non-uniques are not peaks\n        PV[u] = pv\n',
+     '        PV = u.copy()\n        PV[PV] = pv\n',
+     'expansion into a copy of u indexed by itself'),
+    ("C10", "neutral", [], CYC, '        if yu.size > 2:\n            pv[-1] = yu[-1] != yu[-2]\n',
+     '        if len(yu) >= 3:\n            pv[-1] = not yu[-2] == yu[-1]\n',
+     'end-point guard with len() and a negated equality'),
+    ("C10", "neutral", [], FDE, '        sig2_4 = np.sqrt(Df4 / Dt4)\n        G4 = sig2_4 / (',
+     '        sig2_4 = (Df4 / Dt4) ** 0.5\n        G4 = sig2_4 / (',
+     'square root as ** 0.5'),
+    ("C10", "neutral", [], FDE, '        Abar3 = Abar2 * Abar\n        Abar4 = Abar2 * Abar2\n',
+     '        Abar3 = Abar**3\n        Abar4 = np.power(Abar, 4)\n',
+     'powers of Abar by ** and np.power'),
+    ("C10", "neutral", [], FDE, '        Abar = 2 * lnN0\n',
+     '        Abar = 2.0 * np.log(freq * T0)\n',
+     'Abar from the logarithm written out'),
+    ("C10", "neutral", [], FDE, '            k = np.argmax(tantheta)\n            if tantheta[k] > 0:\n',
+     '            if tantheta[k := np.argmax(tantheta)] > 0:\n',
+     'argmax bound by a walrus inside the test'),
+    ("C10", "neutral", [], CYC, '    if check_bounds:\n        return bb, out_of_bounds\n\n    return bb\n',
+     '    result = (bb, out_of_bounds) if check_bounds else bb\n    return result\n',
+     'getbins with a single exit through a conditional expression'),
+    ("C10", "neutral", [], CYC, '                if mn <= bb[0] or mx > bb[-1]:\n                    out_of_bounds = True\n                else:\n                    out_of_bounds = False\n            else:',
+     '                out_of_bounds = bool((mn <= bb[0]) | (mx > bb[-1]))\n            else:',
+     'verdict as bool(a | b)'),
+    ("C10", "neutral", [], CYC, '            if right:\n                if mn <= bb[0] or mx > bb[-1]:\n                    out_of_bounds = True\n                else:\n                    out_of_bounds = False\n            else:\n                if mn < bb[0] or mx >= bb[-1]:\n                    out_of_bounds = True\n                else:\n                    out_of_bounds = False',
+     '            import operator\n            lo_cmp, hi_cmp = (operator.le, operator.gt) if right else (operator.lt, operator.ge)\n            out_of_bounds = bool(lo_cmp(mn, bb[0]) or hi_cmp(mx, bb[-1]))',
+     'verdict through a table of operator functions chosen by `right`'),
+    ("C10", "neutral", [], CYC, '    if ensure_boundaries:\n        for i in range(len(cycles)):\n            bim = bin_indices_mean[i]\n            bir = bin_indices_range[i]\n            if (0 <= bim < num_bins_mean) and (0 <= bir < num_bins_range):\n                markov_matrix[bim, bir] += cycles[i, 2]\n    else:\n        for i in range(len(cycles)):\n            markov_matrix[bin_indices_mean[i], bin_indices_range[i]] += cycles[i, 2]\n',
+     '    def inside(bim, bir):\n        return (0 <= bim < num_bins_mean) and (0 <= bir < num_bins_range)\n\n    def always(bim, bir):\n        return True\n\n    keep = inside if ensure_boundaries else always\n    for i in range(len(cycles)):\n        bim = bin_indices_mean[i]\n        bir = bin_indices_range[i]\n        if keep(bim, bir):\n            markov_matrix[bim, bir] += cycles[i, 2]\n',
+     '_binify guard through nested functions chosen by the flag'),
+    ("C10", "neutral", [], CYC, '    bin_indices_range = np.digitize(cycles[:, 0], bins_range, right=right) - 1\n    bin_indices_mean = np.digitize(cycles[:, 1], bins_mean, right=right) - 1\n',
+     '    from functools import partial\n    locate_bin = partial(np.digitize, right=right)\n    bin_indices_range = locate_bin(cycles[:, 0], bins_range) - 1\n    bin_indices_mean = locate_bin(cycles[:, 1], bins_mean) - 1\n',
+     'np.digitize through functools.partial'),
+    ("C10", "neutral", [], CYC, '    bin_indices_range = np.digitize(cycles[:, 0], bins_range, right=right) - 1\n    bin_indices_mean = np.digitize(cycles[:, 1], bins_mean, right=right) - 1\n',
+     '    locate_bin = np.digitize\n    bin_indices_range = locate_bin(cycles[:, 0], bins_range, right=right) - 1\n    bin_indices_mean = locate_bin(cycles[:, 1], bins_mean, right=right) - 1\n',
+     'np.digitize through a local alias'),
+    ("C10", "neutral", [], FDE, '            for jj in range(nbins):\n                pv = amp >= BinAmps[j, jj]\n                Count[j, jj] = np.sum(count[pv])',
+     '            for jj, level in enumerate(BinAmps[j], start=0):\n                pv = amp >= level\n                Count[j, jj] = np.sum(count[pv])',
+     'levels by enumerate(..., start=0)'),
+    ("C10", "neutral", [], FDE, '            if tantheta[k] > 0:\n                # g2 line is higher than g1 line, so find BinAmps**2\n                # where log(count) = 0; ie, solve for x-intercept in\n                # y = m x + b; (x, y) pts are: (0, y1), (x[k], y[k]):\n                G2max[j] = x[k] * y1 / (y1 - y[k])\n',
+     '            G2max[j] = x[k] * y1 / (y1 - y[k]) if tantheta[k] > 0 else G2max[j]\n',
+     'G2 update as a conditional expression'),
+    ("C10", "neutral", [], FDE, '            if tantheta[k] > 0:\n                # g2 line is higher than g1 line, so find BinAmps**2\n                # where log(count) = 0; ie, solve for x-intercept in\n                # y = m x + b; (x, y) pts are: (0, y1), (x[k], y[k]):\n                G2max[j] = x[k] * y1 / (y1 - y[k])\n',
+     '            if tantheta[k] <= 0:\n                continue\n            G2max[j] = x[k] * y1 / (y1 - y[k])\n',
+     'G2 update after an early continue'),
+    ("C10", "neutral", [], FDE, '    G2max = Amax**2\n',
+     '    G2max = Amax * Amax\n',
+     'Amax squared as a product'),
+    ("C10", "neutral", [], FDE, '    G2max = Amax**2\n',
+     '    G2max = np.empty(LF)\n    G2max[:] = np.power(Amax, 2)\n',
+     'G2max allocated then filled with [:]'),
+    ("C10", "neutral", [], FDE, '        Gmax = np.sqrt(np.vstack((G4, G8, G12)) * (Q * pi * freq * lnN0))\n',
+     '        Gmax = np.vstack([np.sqrt(g * (Q * pi * freq * lnN0)) for g in (G4, G8, G12)])\n',
+     'Gmax by a comprehension over the three PSDs'),
+    ("C10", "neutral", [], FDE, '    Gmax = pd.DataFrame(np.vstack((Amax, G2max, Gmax)).T, columns=columns, index=index)\n',
+     '    Gmax = pd.DataFrame(np.column_stack((Amax, G2max, Gmax.T)), columns=columns, index=index)\n',
+     'peakamp table by np.column_stack'),
+    ("C10", "neutral", [], FDE, '        Dt4 *= 4  # 2 ** (b/2)\n        Dt8 *= 16\n        Dt12 *= 64\n',
+     '        Dt4, Dt8, Dt12 = (d * 2 ** (b // 2) for d, b in zip((Dt4, Dt8, Dt12), (b4, b8, b12)))\n',
+     'pvelo damage scaling by a generator over zip of literal tuples'),
+    ("C10", "neutral", [], FDE, '    amp = rf["amp"]\n    count = rf["count"]\n    ASV_[0, j] = amp.max()\n    BinAmps_[j] *= ASV_[0, j]\n',
+     '    amp, count = rf["amp"], rf["count"]\n    amax = amp.max()\n    ASV_[0, j] = amax\n    BinAmps_[j] *= amax\n',
+     '_dofde: tuple assignment and a named maximum'),
+    ("C10", "neutral", [], FDE, '    for jj in range(BinAmps_.shape[1]):\n        pv = amp >= BinAmps_[j, jj]\n        Count_[j, jj] = np.sum(count[pv])\n',
+     '    levels, row = BinAmps_[j], Count_[j]\n    for jj in range(levels.shape[0]):\n        row[jj] = count[amp >= levels[jj]].sum()\n',
+     '_dofde: row views of the shared arrays'),
+    ("C10", "neutral", [], LOC, '    pv = np.hstack((True, abs(m) > stol))\n',
+     '    pv = np.hstack((True, np.where(abs(m) > stol, True, False)))\n',
+     'mask through np.where(c, True, False)'),
+    ("C10", "neutral", [], CYC, '        pv = np.ones(yu.size, bool)\n',
+     '        pv = np.ones_like(yu, dtype=bool)\n',
+     'retained mask by np.ones_like'),
+    ("C10", "neutral", [], CYC, '        s = np.sign(np.diff(yu))\n',
+     '        d = yu[1:] - yu[:-1]\n        s = np.sign(d)\n',
+     'slopes named before taking signs'),
+    ("C10", "neutral", [], CYC, '            yu = y[u]\n',
+     '            yu = np.compress(u, y)\n',
+     'retained samples by np.compress'),
+    ("C10", "neutral", [], CYC, '            yu = y[u]\n',
+     '            yu = y[np.flatnonzero(u)]\n',
+     'retained samples by np.flatnonzero'),
+    ("C10", "neutral", [], CYC, '            yu = y[u]\n',
+     '            yu = np.take(y, np.nonzero(u)[0])\n',
+     'retained samples by np.take at np.nonzero'),
+    ("C10", "neutral", [], FDE, '    pi = np.pi\n',
+     '    import math\n    pi = math.pi\n',
+     'pi from math imported inside the function'),
+    ("C10", "neutral", [], FDE, '    LF = freq.size\n',
+     '    LF = freq.size\n    assert LF == len(freq)\n',
+     'an assert on the number of frequencies'),
+    ("C10", "neutral", [], FDE, '    N0 = freq * T0\n    lnN0 = np.log(N0)\n',
+     "    N0 = freq * T0\n    with np.errstate(all='warn'):\n        lnN0 = np.log(N0)\n",
+     'logarithm inside np.errstate'),
+    # ---------------------------------------------------------------------------------------------------------------- break
+    ("C10", "break", ['C10-R3'], FDE, '    BinCount = np.hstack((Count[:, :-1] - Count[:, 1:], Count[:, -1:]))',
+     '    BinCount = Count.copy()\n    BinCount[:, :-1] -= Count[:, :-1]',
+     'copy updated in place with the unshifted columns: every bin but the last is emptied'),
+    ("C10", "break", ['C10-R3'], FDE, '    BinCount = np.hstack((Count[:, :-1] - Count[:, 1:], Count[:, -1:]))',
+     '    BinCount = Count.copy()\n    BinCount[:, 1:] -= Count[:, :-1]',
+     'copy updated in place with the shift the wrong way round'),
+    ("C10", "break", ['C10-R3'], FDE, '    BinCount = np.hstack((Count[:, :-1] - Count[:, 1:], Count[:, -1:]))',
+     '    BinCount = np.column_stack((Count[:, :-1] - Count[:, 1:], Count[:, 0]))',
+     'column_stack closing with the first (total) column instead of the last'),
+    ("C10", "break", ['C10-R3'], FDE, '                pv = amp >= BinAmps[j, jj]\n                Count[j, jj] = np.sum(count[pv])',
+     '                Count[j, jj] = np.where(amp > BinAmps[j, jj], count, 0).sum()',
+     'np.where form of the cumulative count with a strict comparison'),
+    ("C10", "break", ['C10-R3'], FDE, '                pv = amp >= BinAmps[j, jj]\n                Count[j, jj] = np.sum(count[pv])',
+     '                pv = ~(amp <= BinAmps[j, jj])\n                Count[j, jj] = count[pv].sum()',
+     'complement form that drops the cycles on the level'),
+    ("C10", "break", ['C10-R3'], FDE, '                pv = amp >= BinAmps[j, jj]\n                Count[j, jj] = np.sum(count[pv])',
+     '                Count[j, jj] = np.where(amp >= BinAmps[j, jj], count, 0).max()',
+     'np.where form reduced with max instead of sum'),
+    ("C10", "break", ['C10-R3'], FDE, '            rf = cyclecount.rainflow(resphist[ind])\n\n            amp = rf["amp"]\n            count = rf["count"]\n',
+     '            rf = cyclecount.rainflow(resphist[ind], use_pandas=False)\n\n            amp = rf[:, 1]\n            count = rf[:, 2]\n',
+     'ndarray cycle table: the mean column compared with the amplitude levels'),
+    ("C10", "break", ['C10-R3'], FDE, '            rf = cyclecount.rainflow(resphist[ind])\n\n            amp = rf["amp"]\n            count = rf["count"]\n',
+     '            rf = cyclecount.rainflow(resphist[ind], use_pandas=False)\n\n            amp = rf[:, 0]\n            count = rf[:, 1]\n',
+     'ndarray cycle table: the mean column summed as if it were the counts'),
+    ("C10", "break", ['C10-R3'], FDE, '            SRSmax[j] = abs(resphist).max()\n',
+     '            SRSmax[j] = max(resphist.max(), resphist.min())\n',
+     'SRS value as the larger of max and min (the sign of the minimum lost)'),
+    ("C10", "break", ['C10-R3'], FDE, '            SRSmax[j] = abs(resphist).max()\n',
+     '            SRSmax[j] = np.max(resphist)\n',
+     'SRS value without the absolute value'),
+    ("C10", "break", ['C10-R3'], FDE, '            BinAmps[j] *= Amax[j]\n',
+     '            np.multiply(BinAmps[j], SRSmax[j], out=BinAmps[j])\n',
+     'row of levels scaled through out= by the SRS peak'),
+    ("C10", "break", ['C10-R3'], FDE, '        BinAmps = np.zeros((LF, nbins))\n        BinAmps += np.arange(nbins, dtype=float) / nbins\n',
+     '        BinAmps = np.zeros((LF, nbins))\n        BinAmps[:] = np.arange(1, nbins + 1, dtype=float) / nbins\n',
+     'unit levels stored with [:] starting at 1/nbins: the first cumulative count is no longer the total'),
+    ("C10", "break", ['C10-R1'], FDE, '    Df4 = np.zeros(LF)\n    Df8 = np.zeros(LF)\n    Df12 = np.zeros(LF)\n    for j in range(LF):\n        Df4[j] = (BinAmps[j] ** b4).dot(BinCount[j])\n        Df8[j] = (BinAmps[j] ** b8).dot(BinCount[j])\n        Df12[j] = (BinAmps[j] ** b12).dot(BinCount[j])\n',
+     '    Df4 = np.sum(BinAmps**b4 * BinCount, axis=1)\n    Df8 = (BinAmps**b4 * BinCount).sum(axis=-1)\n    Df12 = np.sum(BinCount * BinAmps**b12, 1)\n',
+     'row-sum form with the b=8 indicator computed with exponent 4'),
+    ("C10", "break", ['C10-R1'], FDE, '    Df4 = np.zeros(LF)\n    Df8 = np.zeros(LF)\n    Df12 = np.zeros(LF)\n    for j in range(LF):\n        Df4[j] = (BinAmps[j] ** b4).dot(BinCount[j])\n        Df8[j] = (BinAmps[j] ** b8).dot(BinCount[j])\n        Df12[j] = (BinAmps[j] ** b12).dot(BinCount[j])\n',
+     '    Df = {b: np.zeros(LF) for b in (b4, b8, b12)}\n    for j in range(LF):\n        for b, arr in Df.items():\n            arr[j] = (BinAmps[j] ** b).dot(BinCount[j])\n    Df4, Df8, Df12 = Df[b4], Df[b12], Df[b8]\n',
+     'arrays kept in a dict by exponent, unpacked in the wrong order'),
+    ("C10", "break", ['C10-R1'], FDE, '    if resp == "absacce":\n        G1 =',
+     '    if resp in ("pvelo",):\n        G1 =',
+     'membership test that selects the absolute-acceleration formulas for pseudo velocity'),
+    ("C10", "break", ['C10-R1'], FDE, '    if resp == "absacce":\n        G1 =',
+     '    acce = {"absacce": False, "pvelo": True}[resp]\n    if acce:\n        G1 =',
+     'regime table with the truth values swapped'),
+    ("C10", "break", ['C10-R1'], FDE, '    di_sig = pd.DataFrame(\n        np.column_stack((Df4, Df8, Df12)), columns=["b=4", "b=8", "b=12"], index=index\n    )',
+     '    di_sig = pd.DataFrame(\n        np.vstack((Df4, Df8, Df12)).T, columns=[f"b={b}" for b in (b4, b12, b8)], index=index\n    )',
+     'f-string labels generated in another order than the columns'),
+    ("C10", "break", ['C10-R5'], CYC, '    if ensure_boundaries:\n        for i in range(len(cycles)):\n            bim = bin_indices_mean[i]\n            bir = bin_indices_range[i]\n            if (0 <= bim < num_bins_mean) and (0 <= bir < num_bins_range):\n                markov_matrix[bim, bir] += cycles[i, 2]\n    else:\n        for i in range(len(cycles)):\n            markov_matrix[bin_indices_mean[i], bin_indices_range[i]] += cycles[i, 2]\n',
+     '    for i in range(len(cycles)):\n        bim = bin_indices_mean[i]\n        bir = bin_indices_range[i]\n        if ensure_boundaries:\n            if bim < 0 or bim > num_bins_mean:\n                continue\n            if bir < 0 or bir >= num_bins_range:\n                continue\n        markov_matrix[bim, bir] += cycles[i, 2]\n',
+     'merged loop with early continues: the row index one past the end is admitted'),
+    ("C10", "break", ['C10-R5'], CYC, '    if ensure_boundaries:\n        for i in range(len(cycles)):\n            bim = bin_indices_mean[i]\n            bir = bin_indices_range[i]\n            if (0 <= bim < num_bins_mean) and (0 <= bir < num_bins_range):\n                markov_matrix[bim, bir] += cycles[i, 2]\n    else:\n        for i in range(len(cycles)):\n            markov_matrix[bin_indices_mean[i], bin_indices_range[i]] += cycles[i, 2]\n',
+     '    for i in range(len(cycles)):\n        bim = bin_indices_mean[i]\n        bir = bin_indices_range[i]\n        if not ensure_boundaries:\n            if bim < 0 or bim >= num_bins_mean:\n                continue\n            if bir < 0 or bir >= num_bins_range:\n                continue\n        markov_matrix[bim, bir] += cycles[i, 2]\n',
+     'merged loop that applies the index guard in the wrong regime'),
+    ("C10", "break", ['C10-R5'], CYC, '        for i in range(len(cycles)):\n            bim = bin_indices_mean[i]\n            bir = bin_indices_range[i]\n            if (0 <= bim < num_bins_mean) and (0 <= bir < num_bins_range):\n                markov_matrix[bim, bir] += cycles[i, 2]',
+     '        for cyc, bim, bir in zip(cycles, bin_indices_mean, bin_indices_range):\n            if not (0 <= bim < num_bins_mean or 0 <= bir < num_bins_range):\n                continue\n            markov_matrix[bim, bir] = markov_matrix[bim, bir] + cyc[2]',
+     'zip loop whose early continue needs both indices to be invalid'),
+    ("C10", "break", ['C10-R5'], CYC, '                if mn <= bb[0] or mx > bb[-1]:\n                    out_of_bounds = True\n                else:\n                    out_of_bounds = False\n            else:\n                if mn < bb[0] or mx >= bb[-1]:\n                    out_of_bounds = True\n                else:\n                    out_of_bounds = False',
+     '                below, above = (lambda v: v < bb[0]), (lambda v: v > bb[-1])\n            else:\n                below, above = (lambda v: v < bb[0]), (lambda v: v >= bb[-1])\n            out_of_bounds = bool(below(mn) or above(mx))',
+     'per-side lambdas: the right-closed lower test lost its equality'),
+    ("C10", "break", ['C10-R5'], CYC, '        if right:\n            bb[0] -= p\n        else:\n            bb[-1] += p\n        out_of_bounds = False',
+     '        if right:\n            bb[0] = mn + p\n        else:\n            bb[-1] = mx + p\n        out_of_bounds = False',
+     'scalar bins: the open first edge moved inward'),
+    ("C10", "break", ['C10-R6'], LOC, '    pv = np.hstack((True, abs(m) > stol))\n',
+     '    pv = np.insert(abs(m) >= stol, 0, True)\n',
+     'np.insert form with the non-strict comparison'),
+    ("C10", "break", ['C10-R6'], LOC, '    pv = np.hstack((True, abs(m) > stol))\n',
+     '    pv = np.ones(len(y), bool)\n    for k in range(1, len(y)):\n        pv[k] = abs(y[k] - y[k - 1]) >= stol\n',
+     'loop-filled mask with the non-strict comparison'),
+    ("C10", "break", ['C10-R6'], LOC, '    pv = np.hstack((True, abs(m) > stol))\n',
+     '    pv = np.r_[False, abs(m) > stol]\n',
+     'np.r_ form that drops the first sample'),
+    ("C10", "break", ['C10-R6'], LOC, '    stol = abs(tol * abs(m).max())\n',
+     '    stol = abs(tol * max(m.max(), m.min()))\n',
+     'largest difference without the sign flip of the minimum'),
+    ("C10", "break", ['C10-R6'], LOC, '    stol = abs(tol * abs(m).max())\n',
+     '    biggest = np.abs(m).max()\n    stol = tol * biggest\n',
+     'tolerance keeps the sign of tol'),
+    ("C10", "break", ['C10-R6'], CYC, '            yu = y[u]\n',
+     '            yu = np.compress(~u, y)\n',
+     'np.compress on the removed samples'),
+    ("C10", "break", ['C10-R6'], CYC, '        PV = np.zeros(y.size, bool)  # non-uniques are not peaks\n        PV[u] = pv\n',
+     '        PV = np.zeros(y.size, bool)  # non-uniques are not peaks\n        PV[np.nonzero(~u)[0]] = pv[: (~u).sum()]\n',
+     'expansion stored at the positions of the removed samples'),
+    ("C10", "break", ['C10-R7'], FDE, '            if tantheta[k] > 0:\n',
+     '            if tantheta[k := np.argmax(tantheta)] > 1e-9:\n',
+     'walrus form with an absolute threshold'),
+    ("C10", "break", ['C10-R7'], FDE, '        sig2_4 = np.sqrt(Df4 / Dt4)\n        G4 = sig2_4 / (',
+     '        sig2_4 = (Df4 / Dt4) ** 0.25\n        G4 = sig2_4 / (',
+     'G4 from the fourth root: degree 1 in the amplitude'),
+]
